@@ -128,9 +128,10 @@ static void wl_tokener_new(struct ctx *c)
 }
 static void wl_chunked_parse(struct ctx *c)
 {
-	const char *d = DOCS[c->param]; size_t n = strlen(d) + 1, off = 0; struct json_tokener *tok = json_tokener_new(); struct json_object *o = NULL; enum json_tokener_error e = json_tokener_continue;
+	/* param = doc (pieces of 7 bytes) or 100*piece + doc */
+	const char *d = DOCS[c->param % 100]; size_t piece = c->param >= 100 ? (size_t)(c->param / 100) : 7; size_t n = strlen(d) + 1, off = 0; struct json_tokener *tok = json_tokener_new(); struct json_object *o = NULL; enum json_tokener_error e = json_tokener_continue;
 	ARM(c);
-	while (off < n) { size_t len = n - off < 7 ? n - off : 7; o = json_tokener_parse_ex(tok, d + off, (int)len); e = json_tokener_get_error(tok); off += len; if (e != json_tokener_continue) break; }
+	while (off < n) { size_t len = n - off < piece ? n - off : piece; o = json_tokener_parse_ex(tok, d + off, (int)len); e = json_tokener_get_error(tok); off += len; if (e != json_tokener_continue) break; }
 	DISARM(c);
 	if (!o && e == json_tokener_error_memory) c->failed = 1; else { ob_printf(&c->res, "err=%d ", (int)e); res_obj(c, o); }
 	json_object_put(o); json_tokener_free(tok);
@@ -217,6 +218,26 @@ static void wl_parse_token_boundary(struct ctx *c)
 	ob_puts(&d, kind == 4 ? "tail\":[1]}" : "tail\"]");
 	ARM(c); o = json_tokener_parse_ex(tok, d.b, (int)d.n + 1); DISARM(c);
 	e = json_tokener_get_error(tok);
+	if (!o && e == json_tokener_error_memory) c->failed = 1; else { ob_printf(&c->res, "err=%d ", (int)e); res_obj(c, o); }
+	json_object_put(o); json_tokener_free(tok); free(d.b);
+}
+/* a document fed in TWO calls, the first one ending inside a token after exactly L of its characters: what the parser saves at the end of a call
+ * (the part of the token seen so far) is appended to its scratch buffer right then, at every growth point.  param = kind*512 + L; kind 0 string value,
+ * 1 member name, 2 number, 3 block comment, 4 line comment, 5 string value whose first part ends in a backslash */
+static void wl_parse_split_token(struct ctx *c)
+{
+	int kind = c->param / 512, L = c->param % 512, i; struct obuf d = {0}; size_t cut; struct json_tokener *tok = json_tokener_new(); struct json_object *o; enum json_tokener_error e;
+	ob_puts(&d, kind == 1 ? "{\"" : kind == 2 ? "[" : kind == 3 ? "[1/*" : kind == 4 ? "[1//" : "[\"");
+	for (i = 0; i < L; i++) ob_putc(&d, kind == 2 ? (char)('1' + i % 9) : (char)('a' + i % 26));
+	if (kind == 5) ob_putc(&d, '\\');
+	cut = d.n;
+	if (kind == 5) ob_putc(&d, 'n');
+	for (i = 0; i < 9; i++) ob_putc(&d, kind == 2 ? (char)('1' + i % 9) : (char)('A' + i % 26));
+	ob_puts(&d, kind == 1 ? "\":[1]}" : kind == 2 ? "]" : kind == 3 ? "*/,2]" : kind == 4 ? "\n,2]" : "\"]");
+	ARM(c);
+	o = json_tokener_parse_ex(tok, d.b, (int)cut); e = json_tokener_get_error(tok);
+	if (!o && e == json_tokener_continue) { o = json_tokener_parse_ex(tok, d.b + cut, (int)(d.n - cut) + 1); e = json_tokener_get_error(tok); }
+	DISARM(c);
 	if (!o && e == json_tokener_error_memory) c->failed = 1; else { ob_printf(&c->res, "err=%d ", (int)e); res_obj(c, o); }
 	json_object_put(o); json_tokener_free(tok); free(d.b);
 }
@@ -526,7 +547,7 @@ static void wl_pointer_grow(struct ctx *c)
 }
 
 struct workload { const char *name; void (*fn)(struct ctx *); int param; const char *cat; };
-#define MAXW 2600
+#define MAXW 3200
 static struct workload W[MAXW]; static int NW;
 static void addw(const char *name, void (*fn)(struct ctx *), int param, const char *cat)
 {
@@ -561,6 +582,8 @@ static void build_table(void)
 	{ static const int ps[] = {0 * 4 + 0, 5 * 4 + 0, 5 * 4 + 1, 5 * 4 + 2, 5 * 4 + 3, 6 * 4 + 1, 9 * 4 + 2}; for (i = 0; i < 7; i++) addw("parse_comma_locale", wl_parse_locale, ps[i], "parse"); }
 	{ static const int ms[] = {0, 9, 10, 11, 12, 21, 22, 23, 43, 44}; int j; for (i = 0; i < 10; i++) for (j = 0; j < 2; j++) addw("pointer_grow", wl_pointer_grow, ms[i] * 2 + j, j ? "patch" : "pointer"); }
 	for (i = 0; i < 48 * 24; i++) addw("serialize_boundary", wl_serialize_boundary, i, "serialize");
+	{ int k, L; for (k = 0; k < 6; k++) for (L = 1; L <= 140; L += (L >= 24 && L < 40) || (L >= 60 && L < 68) || (L >= 124 && L < 132) ? 1 : 11) addw("parse_split_token", wl_parse_split_token, k * 512 + L, "parse"); }
+	{ static const int ds[] = {1, 3, 5, 7, 9, 1301, 3101, 6401, 1308, 106}; for (i = 0; i < 10; i++) addw("parse_chunked", wl_chunked_parse, ds[i], "parse"); }
 }
 
 static uint32_t crc32s(const char *p, size_t n)
